@@ -107,7 +107,7 @@ def run_c15(pid, tier, seed):
         conc = dict(keys=["k1", "k2", "k3"], vals=["v1", "v2"], emb=rng.choice(api.EMBEDDINGS_QUICK), f=rng.choice([1, 3, 25]),
                     vtable=api.VTABLES[rng.choice(["tiny", "edge", "mixed"])], seed=rng.randrange(1 << 30), probes=2)
         sc = dict(run=i + 1, cfg=store, conc=conc, threads=threads, ops=rng.choice([10, 20, 30]), seed=rng.randrange(1 << 30),
-                  yields=rng.random() < 0.7)
+                  yields=rng.random() < 0.7, max_ovl=12)
         scripts.append(sc)
         by_threads.setdefault((threads, maxlog), []).append(i + 1)
     runs, hangs = run_nvh("conc", scripts, pid)
@@ -120,7 +120,7 @@ def run_c15(pid, tier, seed):
     by_run = {sc["run"]: sc for sc in scripts}
     accepted, rejections = 0, []
     for (threads, maxlog), ids in sorted(by_threads.items()):
-        consts = api.gen_constants(maxlog=maxlog, maxovl=1, maxfin=threads, maxsess=threads)
+        consts = api.gen_constants(maxlog=maxlog, maxovl=12, maxfin=threads, maxsess=threads)
         ids = [r for r in ids if r in runs]
         acc, rej = validate_conc(ids, runs, consts, "%s_t%d_m%d" % (pid, threads, maxlog))
         accepted += len(acc)
